@@ -132,9 +132,11 @@ MsgBytesUpTo(m, fi2) ==
 DataOk(m, e) ==
     LET F == m.sc.frames IN
     IF e.n = 0 THEN TRUE
-    ELSE IF MsgIsCtl(m) THEN e.data = SubSeq(F[m.first].pay, m.del + 1, m.del + e.n)
+    ELSE IF MsgIsCtl(m) THEN m.del + e.n <= Len(F[m.first].pay) /\ e.data = SubSeq(F[m.first].pay, m.del + 1, m.del + e.n)
     ELSE IF m.sc.coded THEN e.lo = F[m.first].base + m.del /\ e.hi = e.lo + e.n
-    ELSE e.data = SubSeq(DataOf(F, m.first, MsgLastIdx(m)), m.del + 1, m.del + e.n)
+    ELSE LET whole == DataOf(F, m.first, MsgLastIdx(m)) IN
+         \* (more bytes than the message holds is a mismatch, not an evaluation error)
+         m.del + e.n <= Len(whole) /\ e.data = SubSeq(whole, m.del + 1, m.del + e.n)
 
 \* whole payload of the open message (verbatim scenarios only)
 MsgPayload(m) == IF MsgIsCtl(m) THEN m.sc.frames[m.first].pay
